@@ -82,7 +82,7 @@ def gen_dca(rng, name, off, n_buys=None, subsecond=False, twins=False):
         amt = rng.choice([U // 10, U // 20, U // 4])
         ins.append({"ts": [t, off], "exch": 0, "holder": 0, "type": "BUY", "spot": rng.choice(PRICES), "crypto_in": amt})
         total += amt
-    if twins and len(ins) >= 9:
+    if twins and len(ins) >= 8:
         # two purchases at the very same instant on sheet rows 9 and 10 (the IN table's data starts at row 3): their row
         # numbers compare differently as strings and as integers
         ins[7]["ts"] = list(ins[6]["ts"])
@@ -124,7 +124,7 @@ def gen_asset(rng, name, ne, nh, shape, off, out_types=None, n_max=9, y0=None):
     if shape == "dca":
         return gen_dca(rng, name, off)
     if shape == "twins":
-        return gen_dca(rng, name, off, n_buys=rng.range(10, 14), twins=True)
+        return gen_dca(rng, name, off, n_buys=8, twins=True)     # rows 3..10: the twins (rows 9, 10) are the latest lots
     if shape == "subsecond":
         return gen_dca(rng, name, off, n_buys=rng.range(3, 5), subsecond=True)
     if shape == "lots":
